@@ -26,7 +26,7 @@ def load_known():
                 continue
             kind, _, rest = line.partition(':')
             kv = dict(re.findall(r'(\w+)=(\S+)', rest))
-            rec = dict(property=kv.get('property'), obligation=kv.get('obligation'), site=kv.get('site'), text=rest.strip())
+            rec = dict(property=kv.get('property'), obligation=kv.get('obligation'), site=kv.get('site'), harness=kv.get('harness'), match=kv.get('match'), text=rest.strip())
             (findings if kind == 'finding' else fixed).append(rec)
     return findings, fixed
 
@@ -163,8 +163,10 @@ def fallback_enumeration(prop, why):
         except gen.ToolCondition as e:
             print('TOOL-CONDITION (fall-back %s): %s' % (n, e))
             continue
-        k = kani.narrow_tagged(recs[0], prop)
+        k = kani.narrow_tagged(recs[0], prop, load_known()[0])
         out.append(k)
+        for kf in k.get('known_findings', []):
+            print('KNOWN-FINDING: %s (%d failing case(s) in this run)' % (kf['finding'], kf['cases']))
         if k['status'] == 'FAILURE':
             rp = kani.write_replay(VERIF, prop, k)
             print('bounded fall-back %s: a case run on the real code contradicts %s: %s' % (n, prop, k.get('failed_checks', '')[:1200]))
@@ -195,7 +197,7 @@ def main():
         rec0 = json.load(open(a.replay))
         if str(rec0.get('verifier', '')).startswith('native enumeration') and rec0.get('obligation') in kani.HARNESSES:
             # replay of a failing case found by an enumeration: run it again against the real code of the current tree
-            k = kani.narrow_tagged(kani.run_harnesses(REPO, VERIF, [rec0['obligation']])[0], prop)
+            k = kani.narrow_tagged(kani.run_harnesses(REPO, VERIF, [rec0['obligation']])[0], prop, load_known()[0])
             if k['status'] == 'FAILURE':
                 print('REPLAY: %s still fails on the current tree: %s' % (rec0['obligation'], k.get('failed_checks', '')[:1500])); sys.exit(1)
             print('REPLAY: %s: %s on the current tree %s' % (rec0['obligation'], k['status'], k.get('note', ''))); sys.exit(0 if k['status'] == 'SUCCESS' else 2)
@@ -295,7 +297,7 @@ def main():
         wanted = P.get('kani_quick', []) + (P.get('kani_thorough', []) if tier == 'thorough' else [])
         if wanted:
             try:
-                kres = [kani.narrow_tagged(k, prop) for k in kani.run_harnesses(REPO, VERIF, wanted)]
+                kres = [kani.narrow_tagged(k, prop, findings) for k in kani.run_harnesses(REPO, VERIF, wanted)]
             except gen.ToolCondition as e:
                 print('TOOL-CONDITION (kani): %s' % e)
                 run.tool_errors.append('kani: %s' % e)
@@ -379,6 +381,9 @@ def main():
         print('TOOL-CONDITION: kani harness %s: %s' % (k['name'], k['status']))
     if canary is not None and canary['vacuous']:
         print('TOOL-CONDITION: vacuous contracts (ensures false verified): %s' % canary['vacuous'])
+    for k in kres:
+        for kf in k.get('known_findings', []):
+            print('KNOWN-FINDING: %s (%d failing case(s) in this run)' % (kf['finding'], kf['cases']))
     seen = set()
     for f in known_hits:
         if f.oid not in seen:
